@@ -10,15 +10,17 @@ SPEC = {
     "trusted": [
         "C19: translate/c19_scope_table.py regenerates coq/C19/ScopeGen.v (scope enum, Display/FromStr names, the_scope_table arms, the unwrap_or defaults) from maven_dependency_resolver/src/lib.rs on every run and fails closed on anything it does not recognise",
         "C19: the specification side of scope_table_is_maven is the table of 'Introduction to the Dependency Mechanism' transcribed by hand (coq/C19/Theory.v maven_scope_table); the documentation lists compile/provided/runtime/test only, the system row and column follow its sentence 'system is similar to provided'",
-        "C19: XML deserialisation (serde-xml-rs) is outside the model; the harness checks for every generated document that serde yields exactly the abstract POM handed to the model (Debug text comparison)",
+        "C19: XML deserialisation (serde-xml-rs) is outside the model; the harness checks for every generated document - a third of them rendered as realistic XML (XML declaration, xmlns/xsi attributes, comments, CRLF/indentation, padded and CDATA values, children in any order, relativePath, name/licenses/scm/properties/build with plugin dependencies/repositories/modules, empty <dependencies/> and <dependencyManagement/>) - that serde yields the abstract POM handed to the model (field-by-field comparison of the re-serialised MavenPom; fields unknown to the harness are ignored). A document for which the tie cannot be established is a note in the evidence (distribution key xml_tie_not_established), not a failure: the oracle judges the crate on the XML it was given",
         "C19: the Downloader is modelled as a finite map from URLs to POMs; async scheduling is not modelled (the resolver awaits sequentially)",
         "C19: the harness' reference resolver (harness/src/bin/c19/reference.rs), written from Maven's documented rules, is the oracle used to search for failing inputs on the implementation",
     ],
     "assumptions": [
         "POM universes are acyclic (parents, imports, dependencies): the model recurses on fuel (number of documents + 1) and answers Err when it runs out; C19_fuel_suffices shows that in a universe passing the decidable rank check acyclic_check (coq/C19/Acyclic.v; generated universes pass it, stream acyclic-check) the fuel is irrelevant, C19_fuel_monotone that an Ok answer never depends on it. The real code has no recursion limiter: on a cyclic universe it only stops because the harness' Downloader gives up after a download budget (stream cyclic)",
         "supported subset of the property: literal versions, no property interpolation, ranges, exclusions or profiles; managed entries declared before imports; children not re-declaring a parent's dependency (streams violating the last two are compared with the model only)",
-        "when an imported BOM and a parent both manage one artifact the documentation fixes no precedence; code, model and reference take the import (it is expanded in place, the parent's entries come after)",
+        "EXCLUDED from the oracle (classified, counted as import_vs_inherited_management_*): universes in which an imported BOM and a managed entry INHERITED from a parent fix different things for one artifact. The documentation ranks own entries over imports, the first import over later ones, and the child over the parent, but not an import against the parent's entries. The crate (and the model: C19_merge_parent_spec, management = own expanded in place ++ parent's) lets the import win; Maven's model builder assembles inheritance first and its importer only adds still-unmanaged keys, so the parent's entry wins (witness in the notes of every run: parent manages g:x:1.0, child imports a BOM managing g:x:2.0, child depends on g:x: crate 2.0, Maven 1.0). The harness computes both readings with its reference resolver; where they differ the crate must match one of them (else VIOLATION) and which one is recorded. Proposed as known finding F19p",
         "round-trip theorems: coordinate fields free of ':' (and of ' @ ' for FoundDependency); the repository's name is not printed, parsing sets it to the url",
+        "note: C19_tree_children_spec + C19_tree_children_complete: a node's children are exactly the followed dependencies and nothing is asked of the cut ones (cut before resolution); exercised by stream cut-before-resolution (9 ways of cutting x 7 kinds of unresolvable target x 2 depths, plus followed-edge controls) and by dangling cut edges in a quarter of the generated POMs",
+        "note: harness conditions that are notes, not failures: XML tie not established, a 'broken' document that deserialises (universe skipped), download budget hit on an acyclic universe (universe skipped), stack smaller than 1 GiB for the harness thread (fallback 512/256/128 MiB, recorded)",
     ],
     "stated_not_proved": [],
 }
